@@ -19,11 +19,12 @@ pub enum End {
 }
 
 impl End {
-    /// Comparison used by C01/C04: kind and location, never the message.
+    /// Comparison used by C01/C04: kind, location and (for syntax errors) the message: "the same
+    /// error" includes what it says it found.
     pub fn same_outcome(&self, other: &End) -> bool {
         match (self, other) {
             (End::Clean, End::Clean) => true,
-            (End::Syntax { line: l1, column: c1, .. }, End::Syntax { line: l2, column: c2, .. }) => l1 == l2 && c1 == c2,
+            (End::Syntax { line: l1, column: c1, msg: m1 }, End::Syntax { line: l2, column: c2, msg: m2 }) => l1 == l2 && c1 == c2 && m1 == m2,
             (End::Io(_), End::Io(_)) => true,
             (End::OtherErr(a), End::OtherErr(b)) => a == b,
             (End::Panic { .. }, End::Panic { .. }) => true,
